@@ -31,9 +31,14 @@ Inductive event :=
 | Expired                   (* App.ZookeeperExpired.Broadcast() *)
 | Connected | Disconnected  (* App.ZookeeperConnected := true / false *)
 | Tick (now : Z)            (* one iteration of the body of sendEvaluatorRequests at clock now *)
-| Refresh (now : Z) (present : list (positive * Z)).
+| Refresh (now : Z) (present : list (positive * Z))
                             (* processConsumerList at clock now: listed groups, each with the rand.Int63n draw (ms)
                                that is used only if the entry is new *)
+| Response (g : positive) (status : Z).
+                            (* an evaluator reply for group g travelling responseLoop -> checkAndSendResponseToModules
+                               (-> notifyModule): status 0 NOTFOUND, 1 OK, 2.. WARN/ERR..., -1 a nil reply.  It opens /
+                               closes the incident (ID, Start, LastNotify) of the shared group record and never touches
+                               LastEval, the lock or the gate: no effect on this model's state *)
 
 Inductive action :=
 | CallLock | CallUnlock
@@ -106,6 +111,7 @@ Definition step_i (mi : Z) (s : state) (e : event) : state * list action :=
         (* rand.Int63n(minInterval*1000) panics for a non-positive argument *)
         if needs_new present (groups s) && (mi * 1000 <=? 0) then (set_ph s Crashed, [Panic])
         else (mkState p (doEval s) (conn s) (refresh_groups now present (groups s)), [])
+    | Response _ _ => (s, [])
     end
   end.
 
